@@ -171,6 +171,11 @@ fn gen_template_loads(tier: &str, seed: u64, out: &mut dyn FnMut(Value)) {
 
 pub fn gen(tier: &str, seed: u64, out: &mut dyn FnMut(Value)) {
     gen_template_loads(tier, seed, out);
+    {
+        let mut r2 = Rng::new(seed ^ 0x11aa);
+        crate::props::engine_props::many_kinds(&mut r2, out);
+        crate::props::c14::gen_reference_histories(out);
+    }
     let mut rng = Rng::new(seed);
     let thorough = tier == "thorough";
     let (inst, threads, procs) = if thorough { (32, 4, 2) } else { (8, 2, 0) };
